@@ -44,7 +44,7 @@ def corpus():
 
 
 def generate(rng, tier):
-    n = 1000 if tier == "quick" else 30000
+    n = 2500 if tier == "quick" else 30000
     cases = []
     for _ in range(n):
         c = make_case(rng)
